@@ -19,9 +19,10 @@ CONSTRAINT Bound
 ACTION_CONSTRAINT Step
 CHECK_DEADLOCK FALSE
 """
-PLANS = {"C19": dict(profile="ready", key="c19", quick=4, thorough=6, hist=dict(quick=4, thorough=5)),
-         "C13": dict(profile="engine", key="c13", quick=4, thorough=6),
-         "C12": dict(profile="pure", key="c12", quick=5, thorough=7)}
+# (thorough depths one above quick: depth 6 of "ready" is 5*10^5 transitions, replayed three times - an hour on 16 cores)
+PLANS = {"C19": dict(profile="ready", key="c19", quick=4, thorough=5, hist=dict(quick=4, thorough=5)),
+         "C13": dict(profile="engine", key="c13", quick=4, thorough=5),
+         "C12": dict(profile="pure", key="c12", quick=5, thorough=6)}
 
 
 def transitions(profile, depth):
